@@ -194,6 +194,7 @@ func (o *overlayFlag) String() string     { return strings.Join(*o, ",") }
 func (o *overlayFlag) Set(v string) error { *o = append(*o, v); return nil }
 
 var extraOverlay overlayFlag
+var progressEvery int
 
 type loaded struct {
 	h    *Harness
@@ -356,6 +357,24 @@ func runEntry(l *loaded, entry string, workers int, tier string, solverBin strin
 	t0 := time.Now()
 	var wg sync.WaitGroup
 	var emu sync.Mutex
+	if progressEvery > 0 {
+		stopProg := make(chan struct{})
+		defer close(stopProg)
+		go func() {
+			tk := time.NewTicker(time.Duration(progressEvery) * time.Second)
+			defer tk.Stop()
+			for {
+				select {
+				case <-stopProg:
+					return
+				case <-tk.C:
+					sh.mu.Lock()
+					fmt.Fprintf(os.Stderr, "  .. %s: %.0fs paths=%d queued=%d infeasible=%d obligations=%d cex=%d\n", entry, time.Since(t0).Seconds(), sh.Paths, len(sh.work), sh.Infeas, sh.Asserts, len(sh.Cexs))
+					sh.mu.Unlock()
+				}
+			}
+		}()
+	}
 	for w := 0; w < workers; w++ {
 		wg.Add(1)
 		go func() {
@@ -374,6 +393,28 @@ func runEntry(l *loaded, entry string, workers int, tier string, solverBin strin
 					defer sh.donePath()
 					defer func() {
 						if r := recover(); r != nil {
+							// a solver glitch (z3 4.8.12 lets the timer of a finished check-sat cancel the next
+							// command: "push canceled") desynchronises the pipe: restart the solver and re-run this
+							// path along the decisions already taken (alternatives are queued already)
+							for try := 0; try < 3; try++ {
+								g, isGlitch := r.(solverGlitch)
+								if !isGlitch {
+									break
+								}
+								sh.mu.Lock()
+								sh.Notes["solver restarted after: "+string(g)]++
+								sh.mu.Unlock()
+								s.Restart()
+								taken := append([]decision{}, ex.prefix[:min(ex.idx, len(ex.prefix))]...)
+								r = func() (rr any) {
+									defer func() { rr = recover() }()
+									ex.runPath(taken, func() { runEntryOnce(in, fn) })
+									return nil
+								}()
+								if r == nil {
+									return
+								}
+							}
 							emu.Lock()
 							if len(res.Engine) < 5 {
 								res.Engine = append(res.Engine, fmt.Sprintf("engine error on path %s: %v\n%s", decStr(ex.prefix[:min(ex.idx, len(ex.prefix))]), r, trimStack(debug.Stack())))
@@ -537,6 +578,7 @@ func main() {
 	verbose := flag.Bool("v", false, "verbose")
 	flag.Var(&extraOverlay, "overlay", "repo-relative-path=replacement-file (repeatable; mutation testing)")
 	prof := flag.String("cpuprofile", "", "write cpu profile")
+	flag.IntVar(&progressEvery, "progress", 0, "print a progress line to stderr every N seconds (debug)")
 	flag.Parse()
 	if *prof != "" {
 		f, _ := os.Create(*prof)
